@@ -634,6 +634,9 @@ func (w *World) applyContract(fr *Frame, st *State, ct *Contract, names []string
 			}()
 			w.sc.assume(implies(st.cond, w.evalBool(post.assuming(), en.Expr)))
 			w.noteQuantFacts(st.cond, post, en.Expr)
+			if en.Assumed {
+				w.assumption("clause '" + en.Label + "' of " + ct.Name + " is assumed, not proved (" + en.Src + ")")
+			}
 		}()
 	}
 	if base := ct.Base; base != nil {
@@ -1207,6 +1210,15 @@ func (w *World) execAppend(fr *Frame, st *State, c *ssa.CallCommon, s, t *Val) *
 		tb.S, tb.S, n1.S, na.S, srcArr.S, tb.S, sOff.S, na.S), SBool}))
 	w.sc.assume(implies(and(st.cond, inplace), Term{fmt.Sprintf("(forall ((aj! Int)) (! (=> (or (< aj! (+ %s %s)) (>= aj! (+ %s %s))) (= (select %s aj!) (select %s aj!))) :pattern ((select %s aj!))))",
 		tb.S, n1.S, tb.S, total.S, na.S, srcArr.S, na.S), SBool}))
+	{
+		// the same preservation fact by relative position, for explicit instantiation at the positions a proof talks about
+		cond, n1c, nac, tbc, srcc, sOffc, totc, tArrc, tOffc := st.cond, n1, na, tb, srcArr, sOff, total, tArr, tOff
+		w.rawFacts = append(w.rawFacts, rawFact{guard: cond, inst: func(j Term) Term {
+			// position j of the result: an element of s, or (from n1 on) an element of the appended slice
+			return and(implies(and(le(intLit(0), j), lt(j, n1c)), eq(sel(nac, add(tbc, j)), sel(srcc, add(sOffc, j)))),
+				implies(and(le(n1c, j), lt(j, totc)), eq(sel(nac, add(tbc, j)), sel(tArrc, add(tOffc, sub(j, n1c))))))
+		}})
+	}
 	if t.ConstLen > 0 && t.ConstLen <= 8 {
 		for i := 0; i < t.ConstLen; i++ {
 			w.sc.assume(implies(st.cond, eq(sel(na, add(add(tb, n1), intLit(int64(i)))), sel(tArr, add(tOff, intLit(int64(i)))))))
